@@ -166,7 +166,11 @@ def rule_vol_exists(facts):
         tb = {c.bb for c in trav}
         early = fn.reach(0, avoid_blocks=tb)
         bad = []
-        for b, rv, ln in _ret_assigns(fn, early):
+        rets = _ret_assigns(fn, early)
+        for c in fn.calls():
+            if c.bb in early and c.dst == [0, []]:
+                rets.append((c.bb, ["call", c.name], c.line))
+        for b, rv, ln in rets:
             c = op_const(rv[1]) if rv[0] == "use" else None
             if c and c.get("v") == 1:
                 continue
@@ -182,7 +186,7 @@ def rule_vol_exists(facts):
                             leaf_guard = True
             if not leaf_guard:
                 bad.append(ln)
-        r.inst({"fn": fn.id, "early_returns_checked": len(_ret_assigns(fn, early)), "leaf_variants": sorted(leafs)}, not bad)
+        r.inst({"fn": fn.id, "early_returns_checked": len(rets), "leaf_variants": sorted(leafs)}, not bad)
         for ln in bad:
             r.violate(fn.id, "early-return", "returns a computed/false value without visiting the children of a non-leaf expression: "
                       "e.g. abs(random()) is then reported non-volatile and merged/folded", rec["file"], ln)
